@@ -10,7 +10,7 @@ a str (Python source) otherwise.
 from . import svast as A
 from . import rt
 from .errors import SvElabError, SvUnsupported
-from .types import BIT_T, INT_T, Const, PArrT, StructT, Var, VecT, vec_of_width
+from .types import BIT_T, Const, PArrT, VecT
 
 LOOP_UNROLL_CAP = 1 << 16
 LOOP_RUNTIME_CAP = 1 << 20
@@ -130,6 +130,8 @@ class ProcGen:
             obj = self.lookup(e.name)
             if obj is None:
                 raise self.err("undeclared identifier '%s'" % e.name, e)
+            if obj == 'instance':
+                raise self.unsupported("hierarchical reference through instance '%s'" % e.name, e)
             if isinstance(obj, Const):
                 r.val, r.ptype = obj.value, obj.ptype
                 r.tw = r.ptype.width
@@ -219,7 +221,6 @@ class ProcGen:
                 r.guards.append('False')
                 a = b = rr
             pos = (b - rr) if desc else (rr - b)
-            cnt = abs(a - b) + 1
             r.off = self.add(r.off, pos * ew)
             r.ptype = PArrT(a, b, pt.elem) if pt.kind == 'parr' else VecT(a, b)
             r.whole = False
@@ -459,7 +460,7 @@ class ProcGen:
             raise self.err('%s must be a constant expression' % what, e)
         return rt._sx(c, L) if S else c
 
-    def ext(self, c, L, S_leaf, W, S):
+    def ext(self, c, L, S_leaf, W, S):  # S_leaf kept for readability at call sites
         """Convert a leaf of width L to the context (W, S)."""
         if W == L:
             return c
@@ -750,7 +751,7 @@ class ProcGen:
         if loc is not None:
             return loc[2]
         obj = self.lookup(s.var)
-        if obj is None:
+        if obj is None or obj == 'instance':
             raise self.err("undeclared loop variable '%s'" % s.var, s)
         if isinstance(obj, Const):
             raise self.err("loop variable '%s' is a constant" % s.var, s)
